@@ -337,7 +337,8 @@ CORPUS["C19"] = [
 
 CORPUS["C20"] = [
     M("signal scales with sqrt(Nants)", (ANT, "    V_sig = Nants * voltage_from_field(Efield, freqs, gain)", "    V_sig = np.sqrt(Nants) * voltage_from_field(Efield, freqs, gain)")),
-    M("lost /10", (RADIO, "EFields[mask] = (EFields[mask].T * showerEnergy[mask] / 10.0).T", "EFields[mask] = (EFields[mask].T * showerEnergy[mask]).T")),
+    M("field quadratic in the shower energy", (RADIO, "EFields[mask] = (EFields[mask].T * showerEnergy[mask] / 10.0).T", "EFields[mask] = (EFields[mask].T * showerEnergy[mask] ** 2 / 10.0).T")),
+    M("energy scaling applied twice", (RADIO, "        distScale = np.abs(zhairesDist / nssDist)", "        distScale = np.abs(zhairesDist / nssDist) * showerEnergy[mask]")),
     M("distance ratio inverted", (RADIO, "        distScale = np.abs(zhairesDist / nssDist)", "        distScale = np.abs(nssDist / zhairesDist)")),
     M("range cut at 20 km", (RADIO, "            altDec > 10.0\n        )", "            altDec > 20.0\n        )")),
     M("bin width differs in the noise helper", (ANT, "    df = 10.0\n    freqs = np.arange(freqRange[0], freqRange[1], df) + df / 2.0\n    return noise_efield(freqs, h_obs)", "    df = 5.0\n    freqs = np.arange(freqRange[0], freqRange[1], df) + df / 2.0\n    return noise_efield(freqs, h_obs)")),
